@@ -47,19 +47,19 @@ def is_test(path):
     return "::test::" in path or "::tests::" in path or path.endswith("::test") or path.endswith("::tests")
 
 
-def consts_of(facts):
+def consts_of(facts, crates=None):
     out = {}
-    for c in CRATES:
+    for c in (crates or CRATES):
         for it in facts.items(c):
             if it["dk"] in ("Const", "AssocConst") and isinstance(it.get("value"), int):
                 out[it["path"]] = it["value"]
     return out
 
 
-def table_fns(facts):
+def table_fns(facts, crates=None):
     """Local functions of shape `match int { k => Some(..), .., _ => None }` → set of ints mapped to Some."""
     out = {}
-    for c in CRATES:
+    for c in (crates or CRATES):
         for b in facts.bodies(c):
             if b["kind"] not in ("Fn", "AssocFn") or "hir" not in b:
                 continue
@@ -89,8 +89,16 @@ def table_fns(facts):
     return out
 
 
+THOROUGH_CONFIGS = ["parse-core-utf8", "parse-none"]
+
+
 def run(ctx):
     rep, facts = ctx.report, ctx.facts
+    if ctx.tier == "thorough":
+        for cfg in THOROUGH_CONFIGS:
+            if cfg in ctx.configs:
+                f2, r2 = ctx.configs[cfg], rep.scoped(cfg)
+                r2.guarded("inventory", "panic sites", lambda f2=f2, r2=r2: rule_inventory(f2, r2, crates=["anstyle_parse"], check_stale=False))
     rep.guarded("inventory", "panic sites", lambda: rule_inventory(facts, rep))
     rep.guarded("unsafe", "unsafe sites", lambda: rule_unsafe(facts, rep))
     rep.guarded("str-slice", "untrusted str slicing", lambda: rule_str_slice(facts, rep))
@@ -205,6 +213,13 @@ def discharge(site, cx, body):
             if ok_d and ok_o:
                 return "D-split-at-position", "split point is a position() within the same slice, or its length"
         return None
+    if kind == "call:push" and (n.get("resolved") or n.get("callee") or "").startswith("arrayvec::"):
+        for f in frames:
+            if f.get("kind") == "if" and not f["val"]:
+                e = hir.simp(f["expr"])
+                if e.get("k") == "call" and hir.callee(e).endswith("ArrayVec::<T, CAP>::is_full") and hir.same_place(e["args"][0], n["args"][0]):
+                    return "D-arrayvec-guard", "ArrayVec::push on the !is_full() path"
+        return None
     if kind in ("call:expect", "call:unwrap"):
         inner = hir.simp(n["args"][0])
         if inner.get("k") == "call" and hir.callee(inner) in cx.fn_tables:
@@ -220,13 +235,14 @@ def discharge(site, cx, body):
     return None
 
 
-def rule_inventory(facts, rep):
-    consts = consts_of(facts)
-    tables = table_fns(facts)
+def rule_inventory(facts, rep, crates=None, check_stale=True):
+    crates = crates or CRATES
+    consts = consts_of(facts, crates)
+    tables = table_fns(facts, crates)
     used_allow = set()
     n_sites = 0
     n_auto = 0
-    for crate in CRATES:
+    for crate in crates:
         bodies = facts.bodies(crate)
         closures = {}
         for b in bodies:
@@ -283,11 +299,13 @@ def rule_inventory(facts, rep):
                 rep.bad("panic-site", b["path"], inst,
                         f"a {h['kind']} site that no discharge rule covers and the audited allowlist does not list: new site, changed "
                         f"expression or lost guard. expression: {hirpp.expr(h['node'])[:160]}", loc(b, h["node"]))
+    rep.count(n_sites)
+    rep.note(f"{n_sites} HIR panic sites, {n_auto} discharged by rules, {len(used_allow)} by the audited allowlist")
+    if not check_stale:
+        return
     stale = sorted(set(AL.ALLOW) - used_allow)
     rep.check(not stale, "allowlist", "spec/c04_allowlist.py", "no-stale-entries",
               f"allowlist entries that match no site any more (re-audit): {stale[:5]}", "")
-    rep.count(n_sites)
-    rep.note(f"{n_sites} HIR panic sites, {n_auto} discharged by rules, {len(used_allow)} by the audited allowlist")
     # cross-property links the allowlist reasons rely on
     rep.guarded("allowlist", "links", lambda: rule_links(facts, rep))
 
